@@ -317,6 +317,7 @@ Theorem C03_probing_memory_table_invariants : forall buckets n V (t : atable) M,
   (2 <= n)%nat -> TInv n (Defs.alookup t) M -> NoDup (map fst t) ->
   (forall w, Defs.alookup t [w] <> None <-> Z.of_N w < V) ->
   (forall k e, Defs.alookup t k = Some e -> - 2 ^ 24 < e_prob e <= 0 /\ - 2 ^ 24 < e_bo e < 2 ^ 24) ->
+  (forall k e, Defs.alookup t k = Some e -> length k = n -> e_bo e = 0) ->
   (forall j, (2 <= j <= n)%nat -> (length (order_entries t j) < nth (j - 2) buckets 0)%nat) ->
   (forall k, over_vocab n V k -> hash_key k <> 0) ->
   (forall k1 k2, over_vocab n V k1 -> over_vocab n V k2 -> hash_key k1 = hash_key k2 -> k1 = k2) ->
